@@ -497,3 +497,83 @@ Proof.
     induction rounds as [|n tl IH]; cbn in Hl; [discriminate|].
     destruct (Nat.eqb n rn); [inversion Hl; subst; destruct Hin|auto].
 Qed.
+
+(* ------------------------------------------------------------------------------------------ *)
+(* the walk back from the computed block: the connectivity test comes before the cut-off, so
+   whenever the computed block is at most [maxback] rounds above the LFB every block of the
+   walked chain descends from the LFB (otherwise the walk returns without a chain) *)
+Lemma fz_walk_connects : forall t plfb maxback, fz_uniform t -> forall fuel b acc chain R,
+  length acc + fz_rnd t b = R ->
+  (forall x, In x acc -> fz_ancestor t b x) ->
+  (acc <> [] -> fz_rnd t plfb <= fz_rnd t b /\ (fz_rnd t b = fz_rnd t plfb -> b = plfb)) ->
+  fz_walk t plfb maxback fuel b acc = FwOk chain ->
+  (forall x, In x chain -> fz_ancestor t plfb x) \/ (maxback <= length chain /\ fz_rnd t plfb + maxback < R).
+Proof.
+  intros t plfb maxback Hu. induction fuel as [|f IH]; intros b acc chain R HR Hanc Hne H; cbn in H; [discriminate|].
+  destruct (Nat.eqb b plfb || Nat.leb (fz_rnd t b) (fz_rnd t plfb)) eqn:Ec.
+  - inversion H; subst chain. left. intros x Hx.
+    assert (b = plfb) as ->; [|auto].
+    apply orb_true_iff in Ec. destruct Ec as [Ec|Ec]; [now apply Nat.eqb_eq|].
+    apply Nat.leb_le in Ec. destruct acc as [|a acc']; [destruct Hx|].
+    destruct (Hne ltac:(discriminate)) as [H1 H2]. apply H2. lia.
+  - apply orb_false_iff in Ec. destruct Ec as [Eb Ec]. apply Nat.leb_gt in Ec. apply Nat.eqb_neq in Eb.
+    destruct (fz_par t b) as [p|] eqn:Ep; [|discriminate].
+    pose proof (Hu b p Ep) as Hr.
+    assert (forall x, In x (acc ++ [b]) -> fz_ancestor t p x) as Hanc'.
+    { intros x Hx. apply in_app_or in Hx.
+      assert (fz_ancestor t p b) as Hpb by (exists 1; cbn; now rewrite Ep).
+      destruct Hx as [Hx|[<-|[]]]; [eapply fz_ancestor_trans; [exact Hpb|auto]|assumption]. }
+    destruct (Nat.eqb (fz_rnd t p) (fz_rnd t plfb) && negb (Nat.eqb p plfb)) eqn:Ek; [discriminate|].
+    assert (fz_rnd t p = fz_rnd t plfb -> p = plfb) as Hk.
+    { intros E. apply andb_false_iff in Ek. destruct Ek as [Ek|Ek].
+      - apply Nat.eqb_neq in Ek. contradiction.
+      - apply negb_false_iff in Ek. now apply Nat.eqb_eq. }
+    destruct (Nat.leb_spec maxback (length (acc ++ [b]))) as [Hm|Hm].
+    + inversion H; subst chain.
+      destruct (Nat.eq_dec (fz_rnd t p) (fz_rnd t plfb)) as [E|E].
+      * left. rewrite <- (Hk E). exact Hanc'.
+      * right. split; [assumption|]. rewrite app_length in *. cbn in *. lia.
+    + apply (IH p (acc ++ [b]) chain R); try assumption.
+      * rewrite app_length. cbn. lia.
+      * intros _. split; [lia|assumption].
+Qed.
+
+Lemma fz_handoff_subset : forall t r chain st fb v, In (fb, v) (snd (fz_handoff t st r chain)) -> In fb chain.
+Proof.
+  intros t r. induction chain as [|x tl IH]; intros st fb v H; cbn [fz_handoff] in H; [destruct H|].
+  destruct (Nat.ltb (r - fz_rnd t x) 3); [right; eauto|].
+  destruct (fz_par t x); [|destruct H].
+  destruct (fz_lookup (fz_known st) (fz_rnd t x)) as [ids|]; [|destruct H].
+  destruct (negb (existsb (Nat.eqb x) ids)); [destruct H|].
+  destruct (fz_worker_accepts t st x).
+  - match type of H with context [fz_handoff t ?s r tl] => destruct (fz_handoff t s r tl) as [st2 hs] eqn:E; pose proof (IH s fb v) as IH' end.
+    cbn in H. destruct H as [H|H].
+    + inversion H; subst. now left.
+    + right. apply IH'. now rewrite E.
+  - cbn in H. destruct H as [H|[]]. inversion H; subst. now left.
+Qed.
+
+(* every block finalizeRound hands to the finalized-block worker (accepted or not) descends
+   from the LFB, unless the computed block is more than [ahead] rounds above the LFB *)
+Lemma fz_handed_blocks_descend : forall t ahead st r fb v, fz_uniform t ->
+  In (fb, v) (snd (fz_finalize t ahead st r)) ->
+  fz_ancestor t (fz_lfb st) fb \/
+  exists l, fz_compute t (fz_known st) (fz_rnd t (fz_lfb st)) r = FzSome l /\ fz_rnd t (fz_lfb st) + ahead < fz_rnd t l.
+Proof.
+  intros t ahead st r fb v Hu H. unfold fz_finalize in H.
+  destruct (Nat.leb r (fz_rnd t (fz_lfb st))); [destruct H|].
+  destruct (fz_compute t (fz_known st) (fz_rnd t (fz_lfb st)) r) as [l| |] eqn:Ec; try destruct H.
+  destruct (Nat.eqb l (fz_lfb st)); [destruct H|].
+  destruct (Nat.ltb (fz_rnd t (fz_lfb st)) (fz_rnd t l)).
+  - destruct (Nat.leb (2 * ahead) (r - fz_rnd t l)); [destruct H|].
+    destruct (fz_walk t (fz_lfb st) ahead (S (fz_rnd t l)) l []) as [frchain| |] eqn:Ew; try destruct H.
+    apply fz_handoff_subset in H. apply in_rev in H.
+    assert (length (@nil nat) + fz_rnd t l = fz_rnd t l) as HR by reflexivity.
+    assert (@nil nat <> [] -> fz_rnd t (fz_lfb st) <= fz_rnd t l /\ (fz_rnd t l = fz_rnd t (fz_lfb st) -> l = fz_lfb st)) as Hn0
+      by (intros Hc; congruence).
+    destruct (fz_walk_connects t (fz_lfb st) ahead Hu _ _ _ _ (fz_rnd t l) HR
+                (fun x (Hx : In x []) => match Hx with end) Hn0 Ew) as [Hall|[_ Hgap]].
+    + left. auto.
+    + right. exists l. split; [reflexivity|assumption].
+  - destruct (fz_common_ancestor t (fz_lfb st) l); destruct H.
+Qed.
